@@ -14,7 +14,7 @@ CHECKS = {
  "C17": dict(
    engine="core",
    technique="TLA+ spec SafeInt.tla (+BigInt.tla) as oracle; TLC validates the trace recorded from the real templates (complete 8-bit enumeration, 16-bit boundaries, wide types via byte-limb arithmetic); TLC design check MCSafeInt cross-checks the oracle; use sites: SizeUse.tla (node size of the expression factory from a file-provided count; MCSizeUse design check with a wrapping-arithmetic self-test) and TLC validation of the allocation requests recorded from every Begin* of the real ExprFactory (h_sizes)",
-   text="Every operand pair of the 8-bit signed/unsigned instantiations of the same templates is executed and each result is validated by TLC against the specification (exhaustive); 16-bit, int, unsigned, long, size_t at boundary and seeded pairs; all narrowing source/target pairs. Complete for the small instantiations, sampled for the wide ones. Use sites: 312 calls of BeginSum/Count/NumberOf/Call/Iterated/IteratedLogical/Pairwise/PLTerm with counts 1 .. 2^31-1 around every power of two from 2^24: the bytes requested from operator new cover the node, or OverflowError / bad_alloc is raised.",
+   text="Every operand pair of the 8-bit signed/unsigned instantiations of the same templates is executed and each result is validated by TLC against the specification (exhaustive); 16-bit, int, unsigned, long, size_t at boundary and seeded pairs; all narrowing source/target pairs. Complete for the small instantiations, sampled for the wide ones. Use sites: 312 calls of BeginSum/Count/NumberOf/Call/Iterated/IteratedLogical/Pairwise/PLTerm with counts 1 .. 2^31-1 around every power of two from 2^24: the bytes requested from operator new cover the node, or OverflowError / bad_alloc is raised; the same for blocks of variables / common expressions added to a non-empty mp::Problem (old + n has to fit an int).",
    note="Trusts g++'s instantiation of the templates for int8_t/int16_t to follow the same code paths as for int/long (integer promotion differs, which is why wide types are also run under UBSan), TLC, and the BigInt module (cross-checked against TLC's native integers by MCSafeInt).",
    design="5/C17"),
 }
